@@ -32,7 +32,7 @@ class Color(enum.Enum):
 def pool():
     mod = types.ModuleType(MOD)
     sys.modules[MOD] = mod
-    exec(_SRC, mod.__dict__)
+    exec(compile(_SRC, "<verif-generated>", "exec", dont_inherit=True), mod.__dict__)
     NoneT = type(None)
     tys = {
         "int": int, "str": str, "float": float, "Decimal": decimal.Decimal, "date": datetime.date,
